@@ -263,6 +263,8 @@ struct RuleSetList {
 }
 
 fn main() {
+    // verification hooks are guarded by cfg(kani), which only the Kani compiler sets
+    println!("cargo::rustc-check-cfg=cfg(kani)");
     let crate_dir = env::var("CARGO_MANIFEST_DIR").unwrap();
     let package_name = env::var("CARGO_PKG_NAME").unwrap();
     let build_dir = Path::new(crate_dir.as_str());
